@@ -79,7 +79,7 @@ type c16L1Result struct {
 
 func c16Weights() L1Weights {
 	w := DefaultL1Weights
-	w.Create, w.Deposit, w.Propose, w.Delete, w.Claim, w.Role, w.Meta, w.Batch, w.Oracle, w.Params, w.Send, w.Record = 9, 18, 18, 6, 20, 5, 3, 8, 2, 3, 4, 1
+	w.Create, w.Deposit, w.Propose, w.Delete, w.Claim, w.Role, w.Meta, w.Batch, w.Oracle, w.Params, w.Send, w.Record = 4, 18, 20, 9, 20, 5, 3, 8, 2, 3, 4, 1
 	return w
 }
 
